@@ -157,6 +157,10 @@ func coqTables(texts []string, badre []string) string {
 		}
 	}
 	add(utf8.RuneError)
+	// the runes the contracts of the round-trip theorems speak about are always looked up in the real tables
+	for _, r := range []rune{'\t', '\n', '\f', '\r', ' ', '"'} {
+		add(r)
+	}
 	for _, t := range texts {
 		for _, r := range t {
 			add(r)
